@@ -70,6 +70,20 @@ def _table_of(e):
     return None, None, masked
 
 
+def _norm(fi):
+    """the method with attribute aliases and build-then-publish locals folded back into `self.<attr>` form"""
+    import copy
+    from ..astutil import publish_normalised
+    from ..frontend import set_parents
+    node = publish_normalised(fi.node)
+    if node is fi.node:
+        return fi
+    set_parents(node)
+    fi2 = copy.copy(fi)
+    fi2.node = node
+    return fi2
+
+
 class Writer:
     """What the constructors put into the tables (reader/writer agreement)."""
 
@@ -78,7 +92,7 @@ class Writer:
         self.bases = {}       # ctor key -> {table: (start_expr, stop_expr)}
         self.ctors = []
         for name, defs in ci.methods.items():
-            fi = defs[-1]
+            fi = _norm(defs[-1])
             cols = {}
             for s in walk_function(fi.node):
                 if isinstance(s, ast.Assign) and len(s.targets) == 1:
@@ -95,7 +109,7 @@ def tables_fixed(ctx, ci):
     R-C05-12: the look-ups pair table rows with the load series by position)."""
     REORDER = ("sort_index", "sort_values", "reindex", "sample", "reorder_levels", "swaplevel", "reset_index", "set_index", "take")
     for name, defs in ci.methods.items():
-        fi = defs[-1]
+        fi = _norm(defs[-1])
         for st in walk_function(fi.node):
             if isinstance(st, ast.Assign):
                 for t in st.targets:
@@ -137,7 +151,7 @@ def constructor_facts(ctx, ci):
         fi = defs[-1]
         if any(isinstance(s_, ast.Assign) and any(is_self_attr(t_) and t_.attr.startswith("_lut") for t_ in s_.targets)
                for s_ in walk_function(fi.node)):
-            fi = inlined(prog, fi)          # grid construction may live in an extracted private helper
+            fi = _norm(inlined(prog, fi))   # grid construction may live in an extracted private helper
         body_assigns = [s for s in walk_function(fi.node) if isinstance(s, ast.Assign) and len(s.targets) == 1]
         tabs = {}
         cfg = None
